@@ -256,7 +256,7 @@ def goalOfTerm (t : RTerm) : Except FrontErr (String × Bool × List RTerm) :=
   | _ => .error .notCallable
 
 /-- Body after the visitor and as far as the code generator accepts it. -/
-partial def bodyOfRaw : RBody → Except FrontErr Body
+def bodyOfRaw : RBody → Except FrontErr Body
   | .goal .tru => .ok .tru
   | .goal .fail => .ok .fail
   | .goal .cut => .ok .cut
@@ -273,7 +273,7 @@ partial def bodyOfRaw : RBody → Except FrontErr Body
 
 /-- The visitor's checks on a body that happen even when the result is thrown away (directives
     run visitSimplepredicate; clause bodies are visited before the head name is checked). -/
-partial def visitChecks : RBody → Except FrontErr Unit
+def visitChecks : RBody → Except FrontErr Unit
   | .goal (.term t) => do let _ ← goalOfTerm t; pure ()
   | .goal _ => pure ()
   | .conj a b | .disj a b | .ite a b => do visitChecks a; visitChecks b
